@@ -28,7 +28,8 @@ Definition pins : list string := ["usim/__init__.py:run";
   "usim/_core/handler.py:<module>";
   "usim/_core/handler.py:AbstractLoop.<attrs>";
   "usim/_core/handler.py:MissingLoop.<attrs>";
-  "usim/_core/handler.py:StateHandler.<attrs>"].
+  "usim/_core/handler.py:StateHandler.<attrs>";
+  "usim/__init__.py:<module>"].
 (** the functions the model of C15 was transcribed from are unchanged in /repo *)
 Lemma src_unchanged : forallb pin_ok pins = true.
 Proof. vm_compute. reflexivity. Qed.
